@@ -129,12 +129,12 @@ theorem effParticles_gen (A : App)
       simp only [Option.map_some, List.map_map, Function.comp_def]
       rw [ih P (parent_mem A D P hp)]
 
-/-- particle `e` (with its namespace) is what the generator writes for member `fl`, declared by some
-    class of namespace `ns` -/
-def AlignedWith (A : App) (ns : Text) (e : Text × Particle) (fl : Text × Ty) : Prop :=
-  e.1 = ns ∧ e.2.name = fl.1 ∧ e.2.occ = fl.2.occ ∧
-  ∃ D' : ClassDef, D' ∈ A.allClasses ∧ fl ∈ ownFields A.iface D' ∧ D'.ns = ns ∧
-    e.2.type = refOf A D'.ns D'.name fl.1 fl.2
+/-- particle `e` (with its namespace) is what the generator writes for member `x.2`, declared by a class
+    of namespace `x.1` -/
+def AlignedG (A : App) (e : Text × Particle) (x : Text × (Text × Ty)) : Prop :=
+  e.1 = x.1 ∧ e.2.name = x.2.1 ∧ e.2.occ = x.2.2.occ ∧
+  ∃ D' : ClassDef, D' ∈ A.allClasses ∧ x.2 ∈ ownFields A.iface D' ∧ D'.ns = x.1 ∧
+    e.2.type = refOf A D'.ns D'.name x.2.1 x.2.2
 
 inductive All2 {α β} (R : α → β → Prop) : List α → List β → Prop
   | nil : All2 R [] []
@@ -151,29 +151,43 @@ theorem forall₂_append {α β} {R : α → β → Prop} {a1 a2 : List α} {b1 
   | nil => exact h2
   | cons h _ ih => exact All2.cons h ih
 
-theorem classParticles_aligned (A : App) :
-    ∀ (f : Nat) (D : ClassDef), D ∈ A.allClasses → chainOk A.iface f D = true →
-      All2 (AlignedWith A D.ns) (classParticles A f D) D.fields := by
+theorem all2_map_right {α β γ} {R : α → γ → Prop} (g : β → γ) :
+    ∀ (l1 : List α) (l2 : List β), All2 (fun a b => R a (g b)) l1 l2 → All2 R l1 (l2.map g)
+  | _, _, All2.nil => All2.nil
+  | _, _, All2.cons h r => All2.cons h (all2_map_right g _ _ r)
+
+/-- the flattened members of `D`, each with the namespace of its declaring class -/
+def annFields (A : App) : Nat → ClassDef → List (Text × (Text × Ty))
+  | 0, _ => []
+  | f + 1, D =>
+    (match parentOf A.iface D with
+     | some P => annFields A f P
+     | none => []) ++ (ownFields A.iface D).map (fun fl => (D.ns, fl))
+
+theorem annFields_fst (A : App) : ∀ (f : Nat) (D : ClassDef), (annFields A f D).map (·.1) = fieldNs A f D := by
   intro f
   induction f with
-  | zero => intro D _ h; simp [chainOk] at h
+  | zero => intro D; rfl
   | succ f ih =>
-    intro D hD hc
+    intro D
+    simp only [annFields, fieldNs, List.map_append, List.map_map, Function.comp_def]
+    cases parentOf A.iface D with
+    | none => rfl
+    | some P => simp only [ih P]
+
+theorem annFields_snd (A : App) : ∀ (f : Nat) (D : ClassDef), chainOk A.iface f D = true →
+    (annFields A f D).map (·.2) = D.fields := by
+  intro f
+  induction f with
+  | zero => intro D h; simp [chainOk] at h
+  | succ f ih =>
+    intro D hc
     unfold chainOk at hc
-    unfold classParticles
-    have own_al : All2 (AlignedWith A D.ns)
-        ((ownFields A.iface D).map (fun fl => (D.ns, particleOf A D fl))) (ownFields A.iface D) := by
-      apply forall₂_map_of_mem
-      intro fl hfl
-      exact ⟨rfl, rfl, rfl, D, hD, hfl, rfl, rfl⟩
+    simp only [annFields, List.map_append, List.map_map, Function.comp_def, List.map_id']
     cases hb : D.base with
     | none =>
       have hp : parentOf A.iface D = none := by simp [parentOf, hb]
-      have ho : ownFields A.iface D = D.fields := by simp [ownFields, hp]
-      rw [hp]
-      simp only [List.nil_append]
-      rw [ho] at own_al
-      rw [ho]; exact own_al
+      simp [hp, ownFields]
     | some b =>
       rw [hb] at hc
       dsimp only at hc
@@ -182,70 +196,93 @@ theorem classParticles_aligned (A : App) :
       | some P =>
         rw [hf] at hc
         simp only [Bool.and_eq_true, decide_eq_true_eq] at hc
-        obtain ⟨⟨⟨hns, hlen⟩, hpre⟩, hch⟩ := hc
+        obtain ⟨⟨hlen, hpre⟩, hch⟩ := hc
         have hp : parentOf A.iface D = some P := by simp [parentOf, hb, hf]
-        have ho : ownFields A.iface D = D.fields.drop P.fields.length := by simp [ownFields, hp]
         have hpf : P.fields = D.fields.take P.fields.length := fieldsBeq_eq _ _ hpre
-        rw [hp]
-        dsimp only
-        have ihP := ih P (parent_mem A D P hp) hch
-        rw [hns] at ihP
-        have : D.fields = P.fields ++ D.fields.drop P.fields.length := by
-          conv => lhs; rw [← List.take_append_drop P.fields.length D.fields]
-          rw [← hpf]
-        rw [ho] at own_al
-        rw [ho]
-        conv => rhs; rw [this]
-        exact forall₂_append ihP own_al
+        simp only [hp, ownFields, ih P hch]
+        conv => rhs; rw [← List.take_append_drop P.fields.length D.fields]
+        rw [← hpf]
+
+theorem classParticles_aligned (A : App) :
+    ∀ (f : Nat) (D : ClassDef), D ∈ A.allClasses →
+      All2 (AlignedG A) (classParticles A f D) (annFields A f D) := by
+  intro f
+  induction f with
+  | zero => intro D _; exact All2.nil
+  | succ f ih =>
+    intro D hD
+    unfold classParticles annFields
+    have own_al : All2 (AlignedG A)
+        ((ownFields A.iface D).map (fun fl => (D.ns, particleOf A D fl)))
+        ((ownFields A.iface D).map (fun fl => (D.ns, fl))) := by
+      apply all2_map_right
+      apply forall₂_map_of_mem
+      intro fl hfl
+      exact ⟨rfl, rfl, rfl, D, hD, hfl, rfl, rfl⟩
+    cases hp : parentOf A.iface D with
+    | none => simpa using own_al
+    | some P => exact forall₂_append (ih P (parent_mem A D P hp)) own_al
 
 /-! ### consequences of the alignment -/
 
-theorem slots_aligned (A : App) (ns : Text) (ps : List (Text × Particle)) (fields : List (Text × Ty))
-    (h : All2 (AlignedWith A ns) ps fields) :
-    slots ps = slotsS (denoteFields (primFacetsA A) A.tns ns fields) ∧ ps.isEmpty = fields.isEmpty := by
+/-- the denoted slots over an annotated member list (= `denoteFieldsG` over its two projections) -/
+def denoteAnn (A : App) : List (Text × (Text × Ty)) → List (Key × Occ × STy)
+  | [] => []
+  | (n, (k, t)) :: r => ((n, k), t.occ, denoteG A n t) :: denoteAnn A r
+
+theorem denoteAnn_eq (A : App) : ∀ l : List (Text × (Text × Ty)),
+    denoteAnn A l = denoteFieldsG A (l.map (·.1)) (l.map (·.2))
+  | [] => by simp [denoteAnn, denoteFieldsG]
+  | (n, (k, t)) :: r => by simp [denoteAnn, denoteFieldsG, denoteAnn_eq A r]
+
+theorem slots_aligned (A : App) (ps : List (Text × Particle)) (l : List (Text × (Text × Ty)))
+    (h : All2 (AlignedG A) ps l) :
+    slots ps = slotsS (denoteAnn A l) ∧ ps.isEmpty = (denoteAnn A l).isEmpty := by
   induction h with
   | nil => exact ⟨rfl, rfl⟩
-  | @cons e fl l1 l2 hab _ ih =>
+  | @cons e x l1 l2 hab _ ih =>
     obtain ⟨h1, h2, h3, _⟩ := hab
-    obtain ⟨k, t⟩ := fl
+    obtain ⟨n, k, t⟩ := x
     refine ⟨?_, rfl⟩
-    simp only [slots, slotsS, denoteFields, List.map_cons] at ih ⊢
+    simp only [slots, slotsS, denoteAnn, List.map_cons] at ih ⊢
     rw [h1, h2, h3, ← ih.1]
 
 /-- looking a child up in the particles and in the denoted slots gives corresponding results -/
-theorem find_aligned (A : App) (ns : Text) (ps : List (Text × Particle)) (fields : List (Text × Ty))
-    (h : All2 (AlignedWith A ns) ps fields) (cns cname : Text) :
-    (findParticle ps cns cname = none ∧ findS (denoteFields (primFacetsA A) A.tns ns fields) (cns, cname) = none) ∨
-    (∃ e fl, AlignedWith A ns e fl ∧ fl ∈ fields ∧ findParticle ps cns cname = some e.2 ∧
-      findS (denoteFields (primFacetsA A) A.tns ns fields) (cns, cname) = some (fl.2.occ, denote (primFacetsA A) A.tns ns fl.2)) := by
+theorem find_aligned (A : App) (ps : List (Text × Particle)) (l : List (Text × (Text × Ty)))
+    (h : All2 (AlignedG A) ps l) (cns cname : Text) :
+    (findParticle ps cns cname = none ∧ findS (denoteAnn A l) (cns, cname) = none) ∨
+    (∃ e x, AlignedG A e x ∧ x ∈ l ∧ findParticle ps cns cname = some e.2 ∧
+      findS (denoteAnn A l) (cns, cname) = some (x.2.2.occ, denoteG A x.1 x.2.2)) := by
   induction h with
   | nil => exact Or.inl ⟨rfl, rfl⟩
-  | @cons e fl l1 l2 hab _ ih =>
-    obtain ⟨k, t⟩ := fl
+  | @cons e x l1 l2 hab _ ih =>
+    obtain ⟨n, k, t⟩ := x
     have hab' := hab
     obtain ⟨h1, h2, h3, _⟩ := hab'
-    by_cases hk : (ns, k) = (cns, cname)
+    by_cases hk : (n, k) = (cns, cname)
     · right
-      refine ⟨e, (k, t), hab, by simp, ?_, ?_⟩
+      refine ⟨e, (n, (k, t)), hab, by simp, ?_, ?_⟩
       · injection hk with e1 e2
+        simp only at h1 h2
         simp [findParticle, h1, h2, e1, e2]
-      · simp [findS, denoteFields, hk]
+      · simp [findS, denoteAnn, hk]
     · have hne : ¬ (e.1 = cns ∧ e.2.name = cname) := by
-        intro hc; apply hk; rw [← hc.1, ← hc.2, h1, h2]
+        intro hc; apply hk
+        simp only at h1 h2
+        rw [← hc.1, ← hc.2, h1, h2]
       have e1 : findParticle (e :: l1) cns cname = findParticle l1 cns cname := by
         simp only [findParticle, List.find?_cons]
         have : (decide (e.1 = cns) && decide (e.2.name = cname)) = false := by
           simpa using hne
         rw [this]
-      have e2 : findS (denoteFields (primFacetsA A) A.tns ns ((k, t) :: l2)) (cns, cname) =
-          findS (denoteFields (primFacetsA A) A.tns ns l2) (cns, cname) := by
-        simp only [findS, denoteFields, List.find?_cons]
-        have : decide ((ns, k) = (cns, cname)) = false := by simpa using hk
+      have e2 : findS (denoteAnn A ((n, (k, t)) :: l2)) (cns, cname) = findS (denoteAnn A l2) (cns, cname) := by
+        simp only [findS, denoteAnn, List.find?_cons]
+        have : decide ((n, k) = (cns, cname)) = false := by simpa using hk
         rw [this]
       rw [e1, e2]
-      rcases ih with h | ⟨e', fl', ha, hm, hf1, hf2⟩
+      rcases ih with h | ⟨e', x', ha, hm, hf1, hf2⟩
       · exact Or.inl h
-      · exact Or.inr ⟨e', fl', ha, by simp [hm], hf1, hf2⟩
+      · exact Or.inr ⟨e', x', ha, by simp [hm], hf1, hf2⟩
 
 /-! ### a clash-free universe is closed: every component is found under its key -/
 
@@ -449,11 +486,11 @@ theorem validElem_complex (S : Schema) (t : TypeRef) (nillable : Bool) (ns name 
 theorem validElem_gen_pos (A : App) (hc : Closed A) :
     ∀ x : Node, ∀ (cns cname k : Text) (t : Ty) (nillable : Bool),
       posOk A (gen A) cns cname k t = true → (∀ D ∈ nested t, D ∈ A.allClasses) →
-      validElem (gen A) (refOf A cns cname k t) nillable x = validS (denote (primFacetsA A) A.tns cns t) nillable x := by
+      validElem (gen A) (refOf A cns cname k t) nillable x = validS (denoteG A cns t) nillable x := by
   intro x
   induction x using Node.rec (motive_2 := fun cs => ∀ c ∈ cs, ∀ (cns cname k : Text) (t : Ty) (nillable : Bool),
       posOk A (gen A) cns cname k t = true → (∀ D ∈ nested t, D ∈ A.allClasses) →
-      validElem (gen A) (refOf A cns cname k t) nillable c = validS (denote (primFacetsA A) A.tns cns t) nillable c) with
+      validElem (gen A) (refOf A cns cname k t) nillable c = validS (denoteG A cns t) nillable c) with
   | nil => rename_i c hm _ _ _ _ _ _ _; cases hm
   | cons head tail ih1 ih2 =>
     rename_i c hm cns cname k t nillable hpos hnest
@@ -472,7 +509,7 @@ theorem validElem_gen_pos (A : App) (hc : Closed A) :
             cases h1 : isEnum p <;> cases h2 : isDefaultA A p <;> simp_all
           simp [refOf, this]
         rw [hr]
-        simp only [denote]
+        simp only [denoteG]
         apply validElem_simple
         simp only [Schema.resolve, beq_iff_eq.mp hpos]
       · rw [if_neg hq] at hpos
@@ -481,7 +518,7 @@ theorem validElem_gen_pos (A : App) (hc : Closed A) :
             cases h1 : isEnum p <;> cases h2 : isDefaultA A p <;> simp_all
           simp [refOf, this]
         rw [hr]
-        simp only [denote, beq_iff_eq.mp hpos]
+        simp only [denoteG, beq_iff_eq.mp hpos]
         apply validElem_simple
         simp only [Schema.resolve]
     | obj cn ons b fields o =>
@@ -494,25 +531,27 @@ theorem validElem_gen_pos (A : App) (hc : Closed A) :
       have he := effParticles_gen A hc.cplx (gen A).chainBound _ hD
       have hb : (gen A).chainBound = A.iface.classes.length + 1 := rfl
       simp only at he
-      have hal := classParticles_aligned A _ _ hD (hc.chain _ hD)
-      simp only at hal
-      have hs := slots_aligned A ons _ fields hal
-      simp only [denote]
+      have hal := classParticles_aligned A (A.iface.classes.length + 1) _ hD
+      have hs := slots_aligned A _ _ hal
+      have hden : denoteFieldsG A (fieldNs A (A.iface.classes.length + 1) { name := cn, ns := ons, base := b, fields := fields }) fields =
+          denoteAnn A (annFields A (A.iface.classes.length + 1) { name := cn, ns := ons, base := b, fields := fields }) := by
+        rw [denoteAnn_eq, annFields_fst, annFields_snd A _ _ (hc.chain _ hD)]
+      simp only [denoteG, hden]
       apply validElem_complex (ps := classParticles A (A.iface.classes.length + 1) { name := cn, ns := ons, base := b, fields := fields })
       · rw [hb] at he
         simp only [Schema.resolve, hpos.1, hcx, if_true, hb, he]
-      · rw [hs.2, denoteFields_isEmpty]
+      · exact hs.2
       · exact hs.1
       · apply validChildren_eq
         intro c hcm
         rw [nodeKey_eq]
-        rcases find_aligned A ons _ fields hal c.ns c.name with h | ⟨e, fl, ha, hm, hf1, hf2⟩
+        rcases find_aligned A _ _ hal c.ns c.name with h | ⟨e, x, ha, hm, hf1, hf2⟩
         · rw [h.1, h.2]
         · rw [hf1, hf2]
           obtain ⟨_, _, h3, D', hD', hown, hns', hty⟩ := ha
-          have := ih c hcm D'.ns D'.name fl.1 fl.2 fl.2.occ.nillable (hc.pos D' hD' fl hown) (by
+          have := ih c hcm D'.ns D'.name x.2.1 x.2.2 x.2.2.occ.nillable (hc.pos D' hD' x.2 hown) (by
             intro D2 hD2
-            exact allClasses_closed A D' hD' D2 (nested_sub_nestedFields D'.fields fl.1 fl.2 (ownFields_sub _ _ _ hown) D2 hD2))
+            exact allClasses_closed A D' hD' D2 (nested_sub_nestedFields D'.fields x.2.1 x.2.2 (ownFields_sub _ _ _ hown) D2 hD2))
           simp only [hty, h3]
           rw [← hns']
           exact this
@@ -524,7 +563,7 @@ theorem validElem_gen_pos (A : App) (hc : Closed A) :
       have hcx : (gen A).hasComplex (itemKey A cns cname k (.arr m e o)) = true := by simp [Schema.hasComplex, hs2]
       have hb : (gen A).chainBound = A.iface.classes.length + 1 := rfl
       have hk1 : (itemKey A cns cname k (.arr m e o)).1 = memberNs A.tns cns m e := rfl
-      simp only [denote]
+      simp only [denoteG]
       apply validElem_complex (ps := [(memberNs A.tns cns m e, ({ name := memberLocal m, type := refOf A cns cname k e, occ := e.occ } : Particle))])
       · simp only [Schema.resolve, hs1, hcx, if_true, hb, effParticles, hs2, List.nil_append, List.map_cons, List.map_nil, hk1]
       · rfl
@@ -536,8 +575,8 @@ theorem validElem_gen_pos (A : App) (hc : Closed A) :
         · have f1 : findParticle [(memberNs A.tns cns m e, ({ name := memberLocal m, type := refOf A cns cname k e, occ := e.occ } : Particle))] c.ns c.name
               = some { name := memberLocal m, type := refOf A cns cname k e, occ := e.occ } := by
             simp [findParticle, hkey.1, hkey.2]
-          have f2 : findS [((memberNs A.tns cns m e, memberLocal m), e.occ, denote (primFacetsA A) A.tns cns e)] (c.ns, c.name)
-              = some (e.occ, denote (primFacetsA A) A.tns cns e) := by
+          have f2 : findS [((memberNs A.tns cns m e, memberLocal m), e.occ, denoteG A cns e)] (c.ns, c.name)
+              = some (e.occ, denoteG A cns e) := by
             simp [findS, hkey.1, hkey.2]
           rw [f1, f2]
           exact ih c hcm cns cname k e e.occ.nillable hs3 (by intro D hD; exact hnest D (by simpa [nested] using hD))
@@ -549,7 +588,7 @@ theorem validElem_gen_pos (A : App) (hc : Closed A) :
           have f1 : findParticle [(memberNs A.tns cns m e, ({ name := memberLocal m, type := refOf A cns cname k e, occ := e.occ } : Particle))] c.ns c.name
               = none := by
             simp [findParticle, hfalse]
-          have f2 : findS [((memberNs A.tns cns m e, memberLocal m), e.occ, denote (primFacetsA A) A.tns cns e)] (c.ns, c.name)
+          have f2 : findS [((memberNs A.tns cns m e, memberLocal m), e.occ, denoteG A cns e)] (c.ns, c.name)
               = none := by
             simp [findS, hfalse]
           rw [f1, f2]
